@@ -54,4 +54,11 @@ CloneStep(regs, e) ==
               [] e.op = "sub_self" -> IZero
               [] e.op = "panicked" -> regs[d]          \* a step that panicked must at least leave every register intact
   IN IF e.op = "init" THEN [i \in 1..NREG |-> IZero] ELSE [regs EXCEPT ![d] = nv]
+\* composite values: a set / mutation step reports the new value of its destination (what the operation computes is the
+\* business of C03 / C04; here only "the destination and nothing else changed, a clone is its source" is judged)
+CloneStepG(gregs, e) ==
+  LET nv == CASE e.op \in {"set", "mut"} -> e.v
+              [] e.op \in {"clone", "clone_from"} -> gregs[e.src]
+              [] OTHER -> gregs[e.dst]
+  IN [gregs EXCEPT ![e.dst] = nv]
 =============================================================================
